@@ -422,14 +422,16 @@ def State.rename (s : State) (old new : Bytes) : State × R Unit :=
     match s.fs.walkPrefix [] co with
     | some e => (s, .err e)
     | none =>
+      -- (LINUX) both parent directories are resolved before either last component is looked up: a non-directory in the
+      -- prefix of `new` is reported (ENOTDIR) even when `old` does not exist
+      match s.fs.walkPrefix [] cn with
+      | some e => (s, .err e)
+      | none =>
       if (co.getLastD []).length > NAME_MAX then (s, .err .ENAMETOOLONG) else
       match s.fs.node? co with
       | none => (s, .err .ENOENT)
       | some .dir => (s, .unmodelled)
       | some nd =>
-        match s.fs.walkPrefix [] cn with
-        | some e => (s, .err e)
-        | none =>
           if (cn.getLastD []).length > NAME_MAX then (s, .err .ENAMETOOLONG) else
           match s.fs.node? cn with
           | some .dir => (s, .err .EISDIR)
